@@ -158,7 +158,12 @@ fn raw_c06(u: &mut Unstructured) -> arbitrary::Result<c06::Case> {
         let src: u16 = u.arbitrary()?;
         let n = (u.arbitrary::<u8>()? as usize).min(250);
         let payload = u.bytes(n.min(u.len()))?.to_vec();
-        Ok(F { ctrl, dst, src, payload })
+        Ok(F {
+            ctrl,
+            dst,
+            src,
+            payload,
+        })
     };
     let mut items = vec![];
     while !u.is_empty() && items.len() < 24 {
@@ -189,7 +194,13 @@ fn raw_c06(u: &mut Unstructured) -> arbitrary::Result<c06::Case> {
         2 => Chunking::Sizes(vec![1 + (flags as u16 >> 4), 3, 17, 290]),
         _ => Chunking::ItemSplit(vec![(flags as u16) << 8, 0x8000, 0x2000]),
     };
-    Ok(c06::Case { discard: flags & 1 != 0, datagram: flags & 2 != 0 && flags & 0x80 != 0, frag_size: if flags & 0x40 != 0 { 249 } else { 2048 }, items, chunking })
+    Ok(c06::Case {
+        discard: flags & 1 != 0,
+        datagram: flags & 2 != 0 && flags & 0x80 != 0,
+        frag_size: if flags & 0x40 != 0 { 249 } else { 2048 },
+        items,
+        chunking,
+    })
 }
 
 fn raw_c08(u: &mut Unstructured) -> arbitrary::Result<c08::Case> {
@@ -205,8 +216,16 @@ fn raw_c08(u: &mut Unstructured) -> arbitrary::Result<c08::Case> {
     let mode: u8 = u.arbitrary()?;
     let interleave = mode % 4 == 0;
     let datagram = mode & 0x10 != 0;
-    let chunk = if mode & 0x20 != 0 { 1 + (mode as u16 >> 6) * 97 } else { 0 };
-    let interrupts: Vec<u16> = if mode & 0x08 != 0 { vec![u.arbitrary()?, u.arbitrary()?] } else { vec![] };
+    let chunk = if mode & 0x20 != 0 {
+        1 + (mode as u16 >> 6) * 97
+    } else {
+        0
+    };
+    let interrupts: Vec<u16> = if mode & 0x08 != 0 {
+        vec![u.arbitrary()?, u.arbitrary()?]
+    } else {
+        vec![]
+    };
     let mut mutations = vec![];
     while !u.is_empty() && mutations.len() < 6 {
         let i: u16 = u.arbitrary()?;
@@ -223,7 +242,16 @@ fn raw_c08(u: &mut Unstructured) -> arbitrary::Result<c08::Case> {
             _ => Mutation::EmptyFrame(i),
         });
     }
-    Ok(c08::Case { rx_buffer, fragments, start_seq, interleave, mutations, chunk, datagram, interrupts })
+    Ok(c08::Case {
+        rx_buffer,
+        fragments,
+        start_seq,
+        interleave,
+        mutations,
+        chunk,
+        datagram,
+        interrupts,
+    })
 }
 
 /// an application fragment given as raw octets: C09 accept=>exact and the C01 no-panic consumers
@@ -248,7 +276,12 @@ fn raw_app<C: Codec>(data: &[u8]) {
             for l in &out.labels {
                 *st.labels.entry(l.clone()).or_default() += 1;
             }
-            if out.nontrivial && st.nontrivial_hashes.insert(xxhash_rust::xxh64::xxh64(data, 3)) && st.samples.len() < 2 {
+            if out.nontrivial
+                && st
+                    .nontrivial_hashes
+                    .insert(xxhash_rust::xxh64::xxh64(data, 3))
+                && st.samples.len() < 2
+            {
                 st.samples.push(J::s(&format!("{:02x?}", data)));
             }
             if n.is_power_of_two() || n % 20_000 == 0 {
@@ -256,17 +289,45 @@ fn raw_app<C: Codec>(data: &[u8]) {
             }
             out.fail
         }
-        Err(_) => Some(panic_fail(&take_panic().unwrap_or_else(|| "panic@?".into()))),
+        Err(_) => Some(panic_fail(
+            &take_panic().unwrap_or_else(|| "panic@?".into()),
+        )),
     };
     if let Some(f) = fail {
         // as a replay: a fragment specification that reproduces exactly these octets
-        let spec = fraggen::FragSpec { ctrl: 0, func: 0, iin: (0, 0), headers: vec![], muts: vec![fraggen::Mutation::Truncate(0), fraggen::Mutation::Extend(data.to_vec())] };
+        let spec = fraggen::FragSpec {
+            ctrl: 0,
+            func: 0,
+            iin: (0, 0),
+            headers: vec![],
+            muts: vec![
+                fraggen::Mutation::Truncate(0),
+                fraggen::Mutation::Extend(data.to_vec()),
+            ],
+        };
         let case_js = C::to_string(&spec);
-        let body = J::o(vec![("property", J::s("C09")), ("check", J::s("accept_exact")), ("clause", J::s(&f.clause)), ("detail", J::s(&f.detail)), ("sig", J::s(&f.sig)), ("seed", J::U(0)), ("found_by", J::s("libFuzzer (raw application fragment)")), ("case", J::Raw(case_js.clone()))]);
+        let body = J::o(vec![
+            ("property", J::s("C09")),
+            ("check", J::s("accept_exact")),
+            ("clause", J::s(&f.clause)),
+            ("detail", J::s(&f.detail)),
+            ("sig", J::s(&f.sig)),
+            ("seed", J::U(0)),
+            ("found_by", J::s("libFuzzer (raw application fragment)")),
+            ("case", J::Raw(case_js.clone())),
+        ]);
         let _ = std::fs::create_dir_all("/verif/replays/C09");
-        let path = format!("/verif/replays/C09/accept_exact-fuzz-{:016x}.json", hash_str(&case_js));
+        let path = format!(
+            "/verif/replays/C09/accept_exact-fuzz-{:016x}.json",
+            hash_str(&case_js)
+        );
         let _ = std::fs::write(&path, body.render());
-        println!("  check=raw_app clause={} sig={}\n  detail={}", f.clause, f.sig, truncate(&f.detail, 800));
+        println!(
+            "  check=raw_app clause={} sig={}\n  detail={}",
+            f.clause,
+            f.sig,
+            truncate(&f.detail, 800)
+        );
         println!("VIOLATION property=C09 replay={}", path);
         std::process::abort();
     }
